@@ -11,7 +11,12 @@
 (*                                                                         *)
 (* ReadImpl selects the loop: "readfull" (the code); negative controls     *)
 (* "single" (one Read call, result used whatever its length) and           *)
-(* "ignoreerr" (an error is ignored once some bytes have arrived).         *)
+(* "ignoreerr" (an error is ignored once some bytes have arrived),         *)
+(* "atleastwords" (io.ReadAtLeast with the WORD count as minimum: the loop *)
+(* stops once W of the N bytes are in - seeded change C06l) and "retryeof" *)
+(* (a bare io.EOF is retried while the cumulative count is > 0 - seeded    *)
+(* change C14l; a finite source that has ended stays ended, so the call    *)
+(* never returns: the control violates Terminates, not an invariant).      *)
 (* The labelled state graph of this module (-dump dot,actionlabels) is     *)
 (* what the C06 check replays: one scripted reader per edge.               *)
 (***************************************************************************)
@@ -29,9 +34,13 @@ Init == /\ pc = IF CountOK THEN "loop" ELSE "rejected"
         /\ n = 0 /\ buf = [i \in 1..(IF CountOK THEN N ELSE 0) |-> 0] /\ produced = 0
         /\ err = "" /\ stut = 0 /\ ret = "none"
 
+\* the loop of the selected implementation: its minimum and its test of the last error
+LoopMin == IF ReadImpl = "atleastwords" THEN W ELSE N
+CanRead == IF ReadImpl = "retryeof" THEN err = "" \/ (err = "EOF" /\ n > 0) ELSE err = ""
 \* one call r.Read(buf[n:]) : k bytes and error kind e
 Read(k, e) ==
-    /\ pc = "loop" /\ n < N /\ err = ""                      \* for n < min && err == nil
+    /\ pc = "loop" /\ n < LoopMin /\ CanRead                  \* for n < min && err == nil
+    /\ (err = "EOF" => k = 0 /\ e = "EOF")                   \* a finite source that has ended stays ended
     /\ k \in 0..(N - n) /\ e \in Kinds
     /\ (k = 0 /\ e = "" => stut < MaxStutter)                \* (0, nil) reads are retried; bounded here
     /\ buf' = [i \in 1..N |-> IF i > n /\ i <= n + k THEN produced + (i - n) ELSE buf[i]]
@@ -41,11 +50,13 @@ Read(k, e) ==
     /\ UNCHANGED ret
 \* loop exit and NewMnemonic's test of the error
 Return ==
-    /\ \/ pc = "loop" /\ ~(n < N /\ err = "")
+    /\ \/ pc = "loop" /\ ~(n < LoopMin /\ CanRead)
        \/ pc = "exit"
     /\ LET ferr == CASE ReadImpl = "readfull" -> IF n >= N THEN "" ELSE IF n > 0 /\ err = "EOF" THEN "UEOF" ELSE err
                      [] ReadImpl = "single" -> err
                      [] ReadImpl = "ignoreerr" -> IF n > 0 THEN "" ELSE err
+                     [] ReadImpl = "atleastwords" -> IF n >= W THEN "" ELSE IF n > 0 /\ err = "EOF" THEN "UEOF" ELSE err
+                     [] ReadImpl = "retryeof" -> IF n >= N THEN "" ELSE err
        IN ret' = IF ferr = "" THEN "ok" ELSE "fail"
     /\ pc' = "done" /\ UNCHANGED <<n, buf, produced, err, stut>>
 Reject == pc = "rejected" /\ ret' = "wordlen" /\ pc' = "done" /\ UNCHANGED <<n, buf, produced, err, stut>>
